@@ -372,6 +372,7 @@ class LegacyRun:
         total = 0
         first = True
         res = None
+        handed_out = []                     # every result object returned so far, with the number of sweeps it covers
         for op in self.case["ops"]:
             if op["op"] != "sample":
                 continue
@@ -382,7 +383,17 @@ class LegacyRun:
                 ctx.hit("continued_run")
             first = False
             total += int(op["n"])
+            handed_out.append((res, total))
         ctx.nontrivial = total > 0
+        # the stored sample of a sweep is the tuple of values after THAT sweep - also in results handed out by earlier calls
+        for (old, tot) in handed_out[:-1]:
+            for n in names:
+                a = np.array(old[n].samples, float)
+                a = a.reshape(1, -1) if a.ndim == 1 else a
+                bad = [k for k in range(min(tot, a.shape[1])) if not bit_equal(a[:, k], hist[Nb + k][n])]
+                if a.shape[1] != tot or bad:
+                    ctx.violate(PROP, "store", self.sig(what="result_of_earlier_call"), var=n, first_bad=bad[:1], covers=tot)
+                    break
         if res is not None:
             for n in names:
                 a = np.array(res[n].samples, float)
